@@ -12,7 +12,7 @@ RULE = ('cases = every tabulation target (11 potable targets + writePotentials x
         'dipole and quadrupole functions all occur), through (a) the Python API with counting/raising proxies around every callable and a '
         'recording sink, followed by a second write() on the same object, and (b) potable main() in-process with a formula that leaves its '
         'domain at row i of function j (every function x every row) + real subprocess runs; non-trivial = every k (each is a distinct crash point)')
-RULE += '; 14 exception classes incl. KeyboardInterrupt / SystemExit / AttributeError (also with every proxy as the only range of a multi-range form); evaluations that RETURN a complex number or None at k (a write that does not fail must emit a complete table); write-only, gzip, lzma, bz2 and forward-only (seekable() == False) text sinks; writeFuncFL with a pair term that turns attractive at row k (the square root inside the writer fails, nothing was injected); six-species 10^4-row tables failing late; potable formulas whose value becomes complex (negative base ** 1.5)'
+RULE += '; 14 exception classes incl. KeyboardInterrupt / SystemExit / AttributeError (also with every proxy as the only range of a multi-range form); evaluations that RETURN a complex number or None at k (a write that does not fail must emit a complete table); write-only, gzip, lzma, bz2 and forward-only (seekable() == False) text sinks; writeFuncFL with a pair term that turns attractive at row k (the square root inside the writer fails, nothing was injected); six-species 10^4-row tables failing late; potable formulas whose value becomes complex (negative base ** 1.5); ADP models with an empty dipole / quadrupole / pair list (every failure position)'
 ASSUMPTIONS = [
     'a failing evaluation is modelled as an exception raised by the model callable (Python API) or by pymath.sqrt of a negative number inside a formula (potable)',
     'the sink is an in-memory file object (text or binary as open_fp would give) or the named OUTPUT_FILE',
@@ -63,7 +63,8 @@ class Proxy(object):
 
 API_TARGETS = ['LAMMPS', 'DLPOLY', 'GULP', 'excel', 'setfl', 'setfl_fs', 'DL_POLY_EAM', 'DL_POLY_EAM_fs', 'excel_eam', 'excel_eam_fs', 'eam_adp',
                'wp:LAMMPS', 'wp:DL_POLY', 'wp:GULP', 'proc:writeSetFL', 'proc:writeSetFLFinnisSinclair', 'proc:writeTABEAM',
-               'proc:writeTABEAMFinnisSinclair', 'proc:writeFuncFL']
+               'proc:writeTABEAMFinnisSinclair', 'proc:writeFuncFL',
+               'eam_adp:no-dipoles', 'eam_adp:no-quadrupoles', 'eam_adp:no-pairs']      # ADP models with an empty list (zero blocks are written in its place)
 
 
 def make_objects(target, shared, n):
@@ -71,6 +72,9 @@ def make_objects(target, shared, n):
     import atsim.potentials as ap
     from atsim.potentials import pair_tabulation as PT, eam_tabulation as ET
     import math
+    adp_variant = None
+    if target.startswith('eam_adp:'):
+        target, adp_variant = target.split(':')
     def P(f):
         if shared.wrap:
             from atsim.potentials import create_Multi_Range_Potential_Form, Multi_Range_Defn
@@ -88,6 +92,12 @@ def make_objects(target, shared, n):
            ap.EAMPotential('B', 2, 4.5, P(lambda rho: 0.1 * rho * rho - rho), dens('B'), 3.5, 'bcc')]
     dip = [ap.Potential('A', 'A', P(lambda r: 0.5 - 0.1 * r)), ap.Potential('A', 'B', P(lambda r: 0.25 + r))]
     quad = [ap.Potential('B', 'B', P(lambda r: 0.75 * math.exp(-r))), ap.Potential('B', 'A', P(lambda r: 1.25 - r))]
+    if adp_variant == 'no-dipoles':
+        dip = []
+    elif adp_variant == 'no-quadrupoles':
+        quad = []
+    elif adp_variant == 'no-pairs':
+        pots = []
     cutoff, crho = 2.0, 6.0
     nr = 4 * (n - 2) if target in ('DLPOLY', 'wp:DL_POLY') else n
     binary = target.startswith('excel')
